@@ -457,6 +457,9 @@ class BaseArchive(TarHelper):
                 with downloader as (name, fileobj):
                     with Tee(name, fileobj, buildId, caches, workspace) as fo:
                         self._extract(fo, audit, content)
+                        # tarfile stops reading at the end-of-archive marker.
+                        # Drain the rest so that the caches get the whole file.
+                        while fo.read(0x10000): pass
             except (ArtifactError, WebdavError, OSError) as e:
                 raise BuildError(self._namedErrorString(f"Cannot download artifact: {e}"))
             except tarfile.TarError as e:
